@@ -125,7 +125,7 @@ def _run_hw_task(mod, task, tier, prop):
 
 def _clause_of(c, r):
     """(clause name, fn) that the failed obligation is about"""
-    m = re.search(r"/(init|step|post|bounded|resp|cover)/([^/@<]+)", r["id"])
+    m = re.search(r"\]/(init|step|post|bounded|resp|cover)/(.+?)(@\d+|<=\d+)?$", r["id"])
     name = m.group(2)
     for d in (c.invariants, c.ensures_, c.bounded_):
         if name in d:
@@ -285,7 +285,10 @@ def main(prop, tier):
         errors.append("zero obligations discharged")
 
     violations, known_hits = [], []
+    extractor_bad = any(d["mismatches"] for d in difftests)
     for r in failed:
+        if extractor_bad and not r.get("reproduced"):
+            continue        # nothing derived from a mismatching extraction is believed; the run exits 3
         k = match_known(prop, r)
         if k is not None and r.get("reproduced", False):
             known_hits.append((k, r))
